@@ -1,16 +1,16 @@
-\* C15 thorough facet
+\* quick variant of Oracle_MC_C15_sub.cfg (one request): half-second clock, penalty of 3 half seconds, request times truncated
 CONSTANTS
   Val = {v1, v2}
   Stranger = {x1}
-  MaxReq = 2
-  Units = 1
-  ExpSet = {1, 2}
-  PenaltySet = {0, 2}
-  DtSet = {0, 2}
+  MaxReq = 1
+  Units = 2
+  ExpSet = {1}
+  PenaltySet = {0, 3}
+  DtSet = {0, 1, 3}
   AskSet = {1, 2}
-  MinSet = {1, 2}
+  MinSet = {1}
   ShapeSet = {"exact"}
-  MaxH = 6
+  MaxH = 5
 INIT Init
 NEXT Next
 SYMMETRY Sym
